@@ -11,11 +11,13 @@ package webrtc
 //     in-band channels; oracle = getters of the channel announced by OnDataChannel.
 //   - delivery part: every message sequence up to a length over (size class x text/binary)
 //     x channel mode (in-band sending after OnOpen / in-band sending as soon as
-//     CreateDataChannel returned an open channel / pre-negotiated id), both directions at
-//     once, 1-3 channels concurrently on one association; plus label/protocol classes x
-//     mode x sequences up to length 1; plus a long run of 500 messages per direction.
+//     CreateDataChannel returned an open channel / pre-negotiated id) x label/protocol
+//     classes, both directions at once (the sequence one way, its reverse the other way, an
+//     end marker after each), 1-3 channels concurrently on one association; plus long runs
+//     of 500 messages per direction on 1, 2 and 3 channels concurrently.
 //     Oracle = FIFO reference per channel and direction: i-th delivered message equals the
-//     i-th sent message (bytes, IsString), nothing is delivered beyond the sent ones.
+//     i-th sent message (bytes, IsString); nothing is delivered beyond the sent ones; a
+//     receiving channel that reports OnClose before everything was delivered lost messages.
 // The internal schedule of ICE/DTLS/SCTP is whatever happens (not enumerated).
 
 import (
